@@ -490,7 +490,11 @@ def check_purity_and_wrapper(run, el, ec, where):
     if PATH_REPORTS > 0:
         PATH_REPORTS -= 1
         import tempfile
-        fd, path = tempfile.mkstemp(prefix='c04_report_')
+        work = os.path.join(os.path.dirname(os.path.dirname(os.path.abspath(__file__))), '_work')
+        os.makedirs(work, exist_ok=True)
+        fd, path = tempfile.mkstemp(prefix='c04_report_', dir=work)
+        # the file already holds the report of an earlier validation: it must be replaced, not kept
+        os.write(fd, b'Error: stale line left by an earlier validation\n')
         os.close(fd)
         try:
             rep4 = el.validate(report_file=path, return_errors=True)
